@@ -78,6 +78,26 @@ def wrong(group_id, column):
     labels = numpy.cumsum(first) - 1
     return labels[order]
 """
+_IX_POSITIVE_BLOCK = """
+def wrong_block(foreign_key, primary_key, target):
+    indices = numpy.full(len(foreign_key), len(primary_key))
+    for start in range(0, len(primary_key), 4096):
+        block = primary_key[start : start + 4096]
+        hit = foreign_key[:, None] == block
+        found = hit.any(axis=1)
+        indices[found] = numpy.argmax(hit[found], axis=1)
+    return numpy.pad(target, (0, 1)).take(indices)
+"""
+_IX_NEGATIVE_BLOCK = """
+def right_block(foreign_key, primary_key, target):
+    indices = numpy.full(len(foreign_key), len(primary_key))
+    for start in range(0, len(primary_key), 4096):
+        block = primary_key[start : start + 4096]
+        hit = foreign_key[:, None] == block
+        found = hit.any(axis=1)
+        indices[found] = numpy.argmax(hit[found], axis=1) + start
+    return numpy.pad(target, (0, 1)).take(indices)
+"""
 _IX_NEGATIVE = """
 def right(group_id, column):
     order = numpy.argsort(group_id)
@@ -103,8 +123,10 @@ def index_spaces(ctx, repo, rid):
     # the typer must still tell the two textbook spellings apart (expected count on the tree is zero)
     pos = Typer(None, ast.parse(_IX_POSITIVE).body[0]).run()
     neg = Typer(None, ast.parse(_IX_NEGATIVE).body[0]).run()
-    if len(pos) != 1 or neg:
-        raise AnalysisError(f"index-space typer self-check failed (positive example: {len(pos)} findings, negative example: {len(neg)})")
+    posb = Typer(None, ast.parse(_IX_POSITIVE_BLOCK).body[0]).run()
+    negb = Typer(None, ast.parse(_IX_NEGATIVE_BLOCK).body[0]).run()
+    if len(pos) != 1 or neg or len(posb) != 1 or negb:
+        raise AnalysisError(f"index-space typer self-check failed (wrong examples: {len(pos)}, {len(posb)} findings; right examples: {len(neg)}, {len(negb)})")
     nf = nchecked = 0
     for mod, fname, fs, checked in index_space_findings(repo):
         nf += 1
